@@ -340,41 +340,150 @@ theorem writeAttr_template (o : Opts) (ext : Ext) (sub : Sub) (tag rawTag : List
 
 /-! ## `KeepDefaultAttrVals` and the special cases before the write loop -/
 
-/-- K-C16-2: the `value` attribute of an `input` element that has a `type` attribute is removed when its value is
-    the default for that type (`""` for the text-like types, `on` for `radio`) — whatever `KeepDefaultAttrVals` says -/
-def inputValueTrigger (as : List AttrSt) : Bool :=
-  match lastIdx as "type", lastIdx as "value" with
-  | some ti, some vi =>
-    let typ := (as[ti]?.map (·.val)).getD []
-    let vv := (as[vi]?.map (·.val)).getD []
-    (isTextLike typ && vv.isEmpty) || (equalFold typ "radio" && equalFold vv "on")
-  | _, _ => false
-
-theorem modifyAt_keep_of_val (as : List AttrSt) (i : Nat) (f : AttrSt → AttrSt) (hf : ∀ x, (f x).keep = x.keep) :
-    (modifyAt as i f).map (·.keep) = as.map (·.keep) := by
-  unfold modifyAt
-  apply List.ext_getElem?
-  intro j
-  simp only [List.getElem?_map, List.getElem?_mapIdx]
-  cases as[j]? with
-  | none => rfl
-  | some x => simp only [Option.map_some]; split <;> simp [hf]
-
-theorem specialAttrs_input_keep (ext : Ext) (as as' : List AttrSt)
-    (h : specialAttrs ext (s "input") as = .ok as') (g : inputValueTrigger as = false) : as' = as := by
-  unfold specialAttrs at h
-  have h1 : hashIs (s "input") "meta" = false := by decide
-  have h2 : hashIs (s "input") "script" = false := by decide
+/-- with the option the special case for `input` (removal of a default `value`) is switched off -/
+theorem specialAttrsOpt_input (o : Opts) (ext : Ext) (as : List AttrSt) (hk : o.keepDefaultAttrVals = true) :
+    specialAttrsOpt o ext (s "input") as = .ok as := by
   have h3 : hashIs (s "input") "input" = true := by decide
-  simp only [h1, h2, h3, Bool.false_eq_true, if_false, if_true] at h
-  unfold inputValueTrigger at g
+  simp [specialAttrsOpt, h3, hk]
+
+/-- for every other element the option plays no role before the write loop -/
+theorem specialAttrsOpt_other (o : Opts) (ext : Ext) (tag : List Char) (as : List AttrSt) (h : hashIs tag "input" = false) :
+    specialAttrsOpt o ext tag as = specialAttrs ext tag as := by
+  simp [specialAttrsOpt, h]
+
+/-! ## `KeepEndTags`: the record of written html/head/body/colgroup start tags (`docOpen`) -/
+
+theorem endStep_docOpen (o : Opts) (st0 : St) (name data : List Char) (rest : List HTok) :
+    (endStep o st0 name data rest).1.docOpen =
+      if (o.keepEndTags && isDroppedTag o name && st0.docOpen.contains name) = true then st0.docOpen.erase name
+      else st0.docOpen := by
+  unfold endStep
+  by_cases hp : hashIs name "pre" = true
+  · simp only [hp, if_true]; split <;> (try split) <;> rfl
+  · simp only [hp]; split <;> (try split) <;> rfl
+
+theorem startPre_docOpen (st0 : St) (name : List Char) (attrs : List Attr) :
+    (startPre st0 name attrs).docOpen = st0.docOpen := by
+  unfold startPre; simp only; split <;> rfl
+
+theorem startPost_docOpen (o : Opts) (st3 : St) (name : List Char) (rest : List HTok) (mt : Option (List Char)) :
+    (startPost o st3 name rest mt).docOpen =
+      if (o.keepEndTags && isDroppedTag o name) = true then name :: st3.docOpen else st3.docOpen := by
+  cases mt <;> simp only [startPost, apply_ite St.docOpen, ite_self]
+
+/-- with `KeepEndTags` an end tag is written unless it belongs to a pair that is dropped as a whole (its start tag was
+    not written) -/
+theorem end_step_kept (o : Opts) (ext : Ext) (sub : Sub) (st : St) (name data : List Char) (rest : List HTok)
+    (hd : st.dropEnd = false) (hk : o.keepEndTags = true)
+    (hopen : isDroppedTag o name = false ∨ st.docOpen.contains name = true) :
+    ∃ st', step o ext sub st (.endTag name data) rest = .ok (st', endTagBytes name data) := by
+  have h2 := keep_end_tags_omit o name rest hk
+  rcases hopen with h1 | h1
+  · exact end_step_written o ext sub st name data rest hd h1 h2
+  · cases hdr : isDroppedTag o name with
+    | false => exact end_step_written o ext sub st name data rest hd hdr h2
+    | true =>
+      simp only [step, hd, Bool.false_eq_true, if_false, endStep, hk, hdr, h1, h2, Bool.and_self, Bool.not_true, Bool.and_false]
+      exact ⟨_, rfl⟩
+
+/-- a written html/head/body/colgroup start tag is recorded -/
+theorem step_start_open (o : Opts) (ext : Ext) (sub : Sub) (st st' : St) (name : List Char) (attrs : List Attr)
+    (rest : List HTok) (out : List Char) (hk : o.keepEndTags = true) (hdoc : isDroppedTag o name = true)
+    (h : step o ext sub st (.startTag name attrs) rest = .ok (st', out)) (hout : out ≠ []) :
+    name ∈ st'.docOpen := by
+  unfold step at h
   split at h
-  · next ti vi hti hvi =>
-    rw [hti, hvi] at g
-    simp only at g h
-    rw [g] at h
-    simp only [Bool.false_eq_true, if_false] at h
-    cases h; rfl
-  · cases h; rfl
+  · cases h; exact absurd rfl hout
+  · simp only at h
+    split at h
+    · cases h; exact absurd rfl hout
+    · split at h
+      · cases h; exact absurd rfl hout
+      · simp only [bind, Except.bind] at h
+        split at h
+        · cases h
+        · split at h
+          · cases h
+          · cases h
+            rw [startPost_docOpen]
+            simp [hk, hdoc]
+
+/-- a recorded name stays recorded until an end tag of that name is met -/
+theorem step_docOpen_mem (o : Opts) (ext : Ext) (sub : Sub) (st st' : St) (t : HTok) (rest : List HTok)
+    (out : List Char) (h : step o ext sub st t rest = .ok (st', out)) (n : List Char) (hm : n ∈ st.docOpen)
+    (hne : ∀ d, t ≠ .endTag n d) : n ∈ st'.docOpen := by
+  unfold step at h
+  split at h
+  · cases h; exact hm
+  · cases t with
+    | doctype => simp only at h; cases h; exact hm
+    | comment data text =>
+      simp only [bind, Except.bind] at h
+      split at h
+      · cases h
+      · cases h; exact hm
+    | svg data => simp only at h; cases h; exact hm
+    | math data => simp only at h; cases h; exact hm
+    | template data => simp only at h; cases h; exact hm
+    | text data tmpl =>
+      simp only at h
+      split at h
+      · cases h; exact hm
+      · split at h
+        · split at h <;> (cases h; exact hm)
+        · split at h <;> (cases h; exact hm)
+    | endTag name data =>
+      simp only [Except.ok.injEq] at h
+      have e := congrArg Prod.fst h
+      simp only at e
+      rw [← e, endStep_docOpen]
+      split
+      · have hn : n ≠ name := fun e => hne data (by rw [e])
+        exact (List.mem_erase_of_ne hn).mpr hm
+      · exact hm
+    | startTag name attrs =>
+      simp only at h
+      split at h
+      · cases h; exact hm
+      · split at h
+        · cases h; rw [startPre_docOpen]; exact hm
+        · simp only [bind, Except.bind] at h
+          split at h
+          · cases h
+          · split at h
+            · cases h
+            · cases h
+              rw [startPost_docOpen, startPre_docOpen]
+              split
+              · exact List.mem_cons_of_mem _ hm
+              · exact hm
+
+/-- along a trace: a name recorded in the state in front of the pieces `pre ++ q :: post` is still recorded in front of
+    `q` if no piece of `pre` is an end tag of that name -/
+theorem trace_docOpen_mem (o : Opts) (ext : Ext) (sub : Sub) (n : List Char) :
+    ∀ (pre : List Piece) (st : St) (toks : List HTok) (q : Piece) (post : List Piece),
+      trace o ext sub st toks = .ok (pre ++ q :: post) → n ∈ st.docOpen →
+      (∀ x ∈ pre, ∀ d, x.tok ≠ .endTag n d) → n ∈ q.st.docOpen := by
+  intro pre
+  induction pre with
+  | nil =>
+    intro st toks q post h hm _
+    cases toks with
+    | nil => simp [trace] at h
+    | cons t rest =>
+      obtain ⟨st', out, ps', _, _, e⟩ := trace_cons o ext sub st t rest _ h
+      simp only [List.nil_append, List.cons.injEq] at e
+      rw [e.1]; exact hm
+  | cons x pre ih =>
+    intro st toks q post h hm hne
+    cases toks with
+    | nil => simp [trace] at h
+    | cons t rest =>
+      obtain ⟨st', out, ps', hs, ht, e⟩ := trace_cons o ext sub st t rest _ h
+      simp only [List.cons_append, List.cons.injEq] at e
+      have hx : x.tok = t := by rw [e.1]
+      have hm' := step_docOpen_mem o ext sub st st' t rest out hs n hm (fun d => hx ▸ hne x (List.mem_cons_self) d)
+      rw [← e.2] at ht
+      exact ih st' rest q post ht hm' (fun y hy d => hne y (List.mem_cons_of_mem _ hy) d)
 
 end Verif.Proofs.C16HtmlOpt
